@@ -1046,11 +1046,15 @@ def c14_9(ctx: Ctx) -> RuleResult:
     `result.realizations.failed_realizations`; it must be the mask the values were computed with."""
     from .c03 import c03_5
 
+    from .c03 import c03_2
+
     r = c03_5(ctx)
-    r.instances = [i for i in r.instances if "failed_realizations" in i.construct]
+    r.instances = [i for i in r.instances if "failed_realizations" in i.construct or "flags" in i.construct]
+    # ... and the gates that decide when a result is withheld (-> TOO_FEW_REALIZATIONS): C03.2
+    r.instances += list(c03_2(ctx).instances)
     for i in r.instances:
         i.rule = "C14.9"
-    r.rule, r.title, r.floor = "C14.9", "the failure flags reported with a result (read by the all-failed test of the optimizer) are the flags the result was computed with", 1
+    r.rule, r.title, r.floor = "C14.9", "results are withheld exactly below the thresholds, and the failure flags reported with a result (read by the all-failed test of the optimizer) are the flags it was computed with", 3
     return r
 
 
